@@ -643,7 +643,7 @@ def fgen_tree(routines):
 # ---------------------------------------------------------------------------------------------------------------
 # running Loki's fgen text of a transformed tree with gfortran (same driver / canonical output as fir.run_gfortran)
 
-def run_text_gfortran(prog, text_items, flags=(), timeout=60, prelude=''):
+def run_text_gfortran(prog, text_items, flags=(), timeout=60, prelude='', module=False):
     """``text_items``: list of (fortran source of the transformed units, inputs); the driver that initialises the dummies,
     calls the main unit and prints the canonical output is generated from the ORIGINAL program ``prog`` (the interface of
     the main unit is unchanged by every transformation considered).  Returns results like fir.run_gfortran."""
@@ -653,6 +653,9 @@ def run_text_gfortran(prog, text_items, flags=(), timeout=60, prelude=''):
     try:
         for k, (text, inputs) in enumerate(text_items):
             drv = fir.emit_driver(prog, inputs, 'fir_driver', '', 1)
+            if module:
+                text = 'module c37_units\ncontains\n' + text + '\nend module c37_units\n'
+                drv = [drv[0], '  use c37_units'] + drv[1:]
             src = prelude + text + '\n' + '\n'.join(drv) + '\nprogram fir_main\n  implicit none\n  call fir_driver()\nend program fir_main\n'
             f = d / f't{k}.F90'
             f.write_text(src)
@@ -765,3 +768,311 @@ def empty_range(prog, inputs):
             else:
                 hi = v
     return lo is not None and hi is not None and lo > hi
+
+
+# ---------------------------------------------------------------------------------------------------------------
+# flat kernels: Python mirror of LokiModel.C37.Model.flatKernel / Frame.columnLocal (decides `excluded`)
+
+def _cl_e(e, jl, wt):
+    k = h(e)
+    if k in ('i', 'r', 'b', 'v'):
+        return True
+    if k == 'idx':
+        a = str(e[1])
+        subs = e[2:]
+        if a in wt and not (subs and h(subs[0]) == 'v' and str(subs[0][1]) == jl):
+            return False
+        return all(_cl_e(s, jl, wt) for s in subs)
+    if k == 'sec':
+        return False
+    if k in ('neg', 'not'):
+        return _cl_e(e[1], jl, wt)
+    if k == 'bin':
+        return _cl_e(e[2], jl, wt) and _cl_e(e[3], jl, wt)
+    if k == 'call':
+        return all(_cl_e(s, jl, wt) for s in e[2:])
+    return False
+
+
+def _cl_stmt(s, jl, wt):
+    if h(s) != 'assign' or h(s[1]) != 'idx':
+        return False
+    lhs = s[1]
+    subs = lhs[2:]
+    if not (subs and h(subs[0]) == 'v' and str(subs[0][1]) == jl):
+        return False
+    return str(lhs[1]) in wt and all(_cl_e(x, jl, wt) for x in subs[1:]) and _cl_e(s[2], jl, wt)
+
+
+def column_local(jl, stmts):
+    wt = [str(s[1][1]) for s in stmts if h(s) == 'assign' and h(s[1]) == 'idx']
+    return jl not in wt and all(_cl_stmt(s, jl, wt) for s in stmts)
+
+
+def flat_kernel(cfg, unit):
+    jl, lo, hi, size = cfg
+    bodies = []
+    for s in unit[4]:
+        if not (h(s) == 'do' and str(s[1]) == jl and h(s[2]) == 'v' and str(s[2][1]) == lo and h(s[3]) == 'v'
+                and str(s[3][1]) == hi and str(s[4]) == 'none' and len(s[5]) > 0):
+            return False
+        bodies += s[5]
+    if not bodies or not column_local(jl, bodies) or lo == jl or hi == jl:
+        return False
+    wt = [str(s[1][1]) for s in bodies]
+    if lo in wt or hi in wt:
+        return False
+    args = [str(a) for a in unit[2]]
+    for d in unit[3]:
+        name, ty, intent, dims, param = fir.decl_fields(d)
+        if name in args or not dims:
+            continue
+        d0 = dims[0]
+        if not (dumps(d0[0]) == '(i 1)' and h(d0[1]) == 'v' and str(d0[1][1]) == size):
+            return False
+        for b in dims[1:]:
+            if not (dumps(b[0]) == '(i 1)' and h(b[1]) == 'i'):
+                return False
+    return True
+
+
+def drop_nops(unit):
+    p = fir.map_program([A('program'), unit[1], unit], fs=lambda ss: [s for s in ss if h(s) != 'nop'])
+    return fir.canon(p)[2]
+
+
+def real_flat(cfg, unit):
+    """the real SCCBase + SCCDevector + SCCDemote + SCCRevector chain on one kernel (role='kernel'), exported"""
+    from loki import Dimension
+    from loki.transformations import single_column as sc
+    jl, lo, hi, size = cfg
+    hor = Dimension(name='horizontal', size=size, index=jl, bounds=(lo, hi))
+    sf = fir.parse_fortran('\n'.join(fir.emit_unit(unit)) + '\n')
+    r = sf.subroutines[0]
+    for t in (sc.SCCBaseTransformation(horizontal=hor), sc.SCCDevectorTransformation(horizontal=hor),
+              sc.SCCDemoteTransformation(horizontal=hor), sc.SCCRevectorTransformation(horizontal=hor)):
+        t.apply(r, role='kernel')
+    return fir.normalize([A('program'), unit[1], fir._x_unit(r)])[2]
+
+
+def gen_flat(rng):
+    dci = rng.randrange(len(DIMCFGS))
+    dc = DIMCFGS[dci]
+    g = dict(DEFAULT_GCFG, items=(2, 4), temps=(0, 3))
+    for attempt in range(20):
+        sig = gen_sig(rng, 'kern1')
+        sig['scalar'] = sig['scalar'] if rng.random() < 0.5 else None
+        flat = rng.random() < 0.8
+        kg = KernelGen(rng, dc, 'kern1', sig, [], g, flat=flat)
+        u = kg.build()
+        prog = fir.canon([A('program'), A('kern1'), u])
+        ins = fir.gen_inputs(rng, prog, 2, max_extent=4)
+        # bounds variables are inputs here: make the range sensible
+        ok = True
+        fixed = []
+        for i in ins:
+            vals = {str(r[0]): r for r in i}
+            n = int(str(vals[dc['size']][1][1]))
+            lo_v = rng.randint(1, n)
+            hi_v = rng.randint(lo_v, n)
+            i = [[r[0], I(lo_v)] if str(r[0]) == dc['lo'] else ([r[0], I(hi_v)] if str(r[0]) == dc['hi'] else r) for r in i]
+            i = fir.canon(i)
+            st = {}
+            res = fir.interp(prog, i, stats=st)
+            if res[0] != 'ok' or not fir.exact_in_hardware(st):
+                ok = False
+                break
+            fixed.append(i)
+        if ok:
+            return [dc['index'], dc['lo'], dc['hi'], dc['size']], prog[2], fixed
+    raise RuntimeError('no flat kernel')
+
+
+# ---------------------------------------------------------------------------------------------------------------
+# the property
+
+K_SHOIST = 'shoist-hoisted-argument-order'
+K_EMPTY = 'empty-range-undefined-scalar'
+
+_cache = {}
+
+
+def _transformed(req):
+    key = dumps(req[:4])
+    if key not in _cache:
+        if len(_cache) > 8:
+            _cache.clear()
+        pipeline, dci, prog = str(req[1]), int(str(req[2])), req[3]
+        try:
+            routines, sched = transform(prog, dci, pipeline)
+            _cache[key] = ('ok', routines)
+        except Exception as e:      # pylint: disable=broad-except
+            _cache[key] = ('raise', f'{type(e).__name__}: {str(e)[:160]}')
+    return _cache[key]
+
+
+def check_tree(prog, ins, routines, pipeline, gf, flags=(), prelude='', text_only=False):
+    """compare original and transformed tree; list of (what, class-or-None)"""
+    out = []
+    mm = call_mismatches(routines)
+    if mm:
+        cls = K_SHOIST if (pipeline == 'shoist' and all('bound twice' in m for m in mm)) else None
+        return [('call site does not match the callee: ' + '; '.join(mm[:2]), cls)]
+    ps = seq_assoc(prog)
+    p1 = None
+    if not text_only:
+        try:
+            p1 = export_tree(routines)
+        except fir.Unsupported as e:
+            p1 = None
+            unsupported = e.kind
+    refs = []
+    if p1 is not None:
+        p1s = seq_assoc(p1)
+        for i in ins:
+            st = {}
+            r0 = fir.interp(ps, i, stats=st)
+            refs.append((r0, st))
+            r1 = fir.interp(p1s, i)
+            d = fir.compare_results(r0, r1)
+            if d:
+                cls = K_EMPTY if (empty_range(prog, i) and r0[0] == 'ok' and r1[0] == 'error') else None
+                out.append((f'interpreter: original vs transformed differ: {d}', cls))
+                break
+    if gf and not out:
+        items0 = [(prog, i) for i in ins]
+        if p1 is not None:
+            res = fir.run_gfortran(items0 + [(p1, i) for i in ins])
+            r0s, r1s = res[:len(ins)], res[len(ins):]
+        else:
+            r0s = fir.run_gfortran(items0)
+            text = fgen_tree(routines)
+            r1s = run_text_gfortran(prog, [(text, i) for i in ins], flags=flags, prelude=prelude)
+        for i, a, b in zip(ins, r0s, r1s):
+            if a[0] != 'ok':
+                out.append((f'gfortran: original program failed: {a}', None))
+                break
+            d = fir.compare_results(a, b, undef_wild=False)
+            if d:
+                out.append((f'gfortran: original vs transformed differ: {d}', None))
+                break
+    elif p1 is None and not gf and not text_only:
+        pass
+    return out
+
+
+class C37(Prop):
+    id = 'C37'
+    title = 'Single-column (SCC) pipelines preserve driver and kernel results'
+    model_modules = ['LokiModel.C37.Model', 'LokiModel.C37.Enc']
+    props_module = 'LokiModel.Props.C37'
+    findings_module = 'LokiModel.Findings.C37'
+    driver = 'Drivers/C37.lean'
+    theorems = ['column_local_fusion', 'column_steps_commute', 'column_local_eval_frame', 'scc_flat_two_loops_sound_partial']
+    design_ref = 'DESIGN.md 4.F C37'
+    level = 'proof'
+    level_text = ('Proved at full strength (Lean 4, universally quantified over programs, bodies, bounds, states, fuel; FIR reference '
+                  'semantics): column_local_fusion (two successive horizontal loops over column-local bodies = the fused loop, exact '
+                  'final state), via column_steps_commute (iteration steps of different columns commute) and column_local_eval_frame. '
+                  'scc_flat_two_loops_sound_partial: the modelled Base+Devector+Demote+Revector output of a flat kernel with two loops '
+                  'and no local arrays preserves the final state (partial: n-ary fusion and demotion of temporaries (demote_sound) are NOT '
+                  'proved). Correspondence: the Lean model of the chain on flat kernels equals the real chain (exported, comments/pragmas '
+                  'dropped). Everything else of the property (all pipeline variants on generated driver/kernel call trees, vertical loops, '
+                  'nested kernels, hoisting, sequential variants) is covered by the direct oracle only: original vs really transformed '
+                  'tree run by the Python FIR interpreter (every run) and by gfortran (thorough tier).')
+    level_note = ('Trusted: FIR reference semantics (Sem.lean) as the meaning of the Fortran subset, tied to gfortran by harness/fir '
+                  'self-tests; the exporter Loki IR -> FIR; the Python interpreter. The SCC transformations themselves are modelled only '
+                  'for flat kernels; their behaviour on general kernels is tested, not verified.')
+    technique = 'Lean 4 theorems about the FIR semantics + a model of the SCC chain on flat kernels + correspondence + direct oracle on real pipelines via the real Scheduler'
+    rule = ('scc stream: generated IFS-style driver/kernel call trees (3 dimension-name configurations; block loop, 1-3 kernels, nested '
+            'calls, vertical loops inside/outside horizontal loops, vector notation, temporaries of shapes (n), (n,nz), (n,2), private '
+            'scalars, conditionals, reductions, partial and empty horizontal ranges), one pipeline variant per case, 3 input sets; '
+            'flat stream: single kernels, 80% in the flat class of the model; distinct = distinct request')
+    trusted_base = ['harness/fir.py exporter and interpreter', 'gfortran 12.2 (thorough tier)']
+    assumptions = ['documented SCC precondition: no dependencies across the horizontal dimension (generated trees satisfy it)']
+    extra_obligations = ['flat-kernel chain correspondence']
+
+    def classes(self):
+        return [K_SHOIST, K_EMPTY]
+
+    def gen(self, rng, tier):
+        n_scc, n_flat, gf = {'quick': (14, 10, 0), 'thorough': (75, 50, 1), 'search': (30, 20, 0)}.get(tier, (14, 10, 0))
+        pipes = list(PIPELINES)
+        for k in range(n_flat):
+            cfg, unit, ins = gen_flat(rng)
+            yield Case([A('flat'), [A(x) for x in cfg], unit, ins], stream='flat', nontrivial=flat_kernel(cfg, fir.canon(unit)))
+        for k in range(n_scc):
+            dci, prog, ins = gen_tree(rng)
+            pl = pipes[k % len(pipes)] if k < 2 * len(pipes) else rng.choice(pipes)
+            yield Case([A('scc'), A(pl), dci, prog, ins, gf], stream=pl)
+
+    def impl(self, req):
+        kind = str(req[0])
+        if kind == 'scc':
+            return [A('result'), A('oracle-only')]
+        if kind == 'flat':
+            cfg = [str(x) for x in req[1]]
+            unit = fir.canon(req[2])
+            if not flat_kernel(cfg, unit):
+                return [A('result'), A('excluded')]
+            return [A('result'), drop_nops(real_flat(cfg, unit))]
+        raise ValueError('bad request')
+
+    def oracle(self, req):
+        kind = str(req[0])
+        if kind == 'flat':
+            cfg = [str(x) for x in req[1]]
+            unit = fir.canon(req[2])
+            ins = req[3]
+            try:
+                u1 = real_flat(cfg, unit)
+            except Exception as e:      # pylint: disable=broad-except
+                return [Failure(f'SCC chain raised {type(e).__name__}: {str(e)[:160]}', None)]
+            p0 = [A('program'), unit[1], unit]
+            p1 = [A('program'), unit[1], u1]
+            for i in ins:
+                r0, r1 = fir.interp(p0, i), fir.interp(p1, i)
+                d = fir.compare_results(r0, r1)
+                if d:
+                    return [Failure(f'flat kernel: original vs transformed differ: {d}', None)]
+            return []
+        if kind == 'scc':
+            pipeline, dci, prog, ins = str(req[1]), int(str(req[2])), req[3], req[4]
+            gf = int(str(req[5])) if len(req) > 5 else 0
+            if len(req) != 6 or h(prog) != 'program':
+                raise ValueError('malformed request')
+            ps = seq_assoc(prog)
+            for i in ins:
+                if fir.interp(ps, i)[0] != 'ok':
+                    raise ValueError('the original call tree does not run on its inputs (malformed request)')
+            st, val = _transformed(req)
+            if st == 'raise':
+                return [Failure(f'pipeline {pipeline} raised {val}', None)]
+            return [Failure(w, c) for w, c in check_tree(prog, ins, val, pipeline, gf)]
+        raise ValueError('bad request')
+
+    def shrink_candidates(self, req):
+        """structure preserving: fewer input sets, then one top-level statement of one kernel removed"""
+        if str(req[0]) != 'scc':
+            return
+        ins = req[4]
+        for k in range(len(ins)):
+            if len(ins) > 1:
+                yield req[:4] + [ins[:k] + ins[k + 1:]] + req[5:]
+        prog = req[3]
+        for ui in range(3, len(prog)):
+            u = prog[ui]
+            for k in range(len(u[4])):
+                u2 = u[:4] + [u[4][:k] + u[4][k + 1:]]
+                yield req[:3] + [prog[:ui] + [u2] + prog[ui + 1:]] + req[4:]
+
+    def post(self, cases, impl_out, model_raw, oracle_fail):
+        # theorem domain vs oracle: a kernel inside the flat class must pass the oracle
+        bad = [c for c, f in oracle_fail if str(c.req[0]) == 'flat' and not f.error and flat_kernel([str(x) for x in c.req[1]], fir.canon(c.req[2]))]
+        problems = [f'flat kernel inside the modelled class fails the oracle: {c.line[:160]}' for c in bad[:3]]
+        n_in = sum(1 for c in cases if str(c.req[0]) == 'flat' and c.nontrivial)
+        return problems, dict(flat_in_class=n_in)
+
+
+PROP = C37()
+READY = True
